@@ -178,9 +178,41 @@ def check(tier):
                             t = toks[k - 1]
                             if not msg.startswith("f:%d:%d:" % (t[3], t[4])):
                                 text_bad.append((text, msg, "expected syntax error at f:%d:%d" % (t[3], t[4])))
+    # ---- a malformed UTF-8 byte sequence is a stray element too: directly after a token, directly before one, inside layout.
+    #      Expected: the tokens COMPLETED before it (a lexeme is complete once a further, well-formed character has been read) are
+    #      parsed; if they are a viable prefix the diagnostic is "file:line:column: invalid utf-8 character" at the first byte of
+    #      the sequence, otherwise the syntax error that comes first.
+    byte_bad, nbytes = [], 0
+    for sp, _ in valid[: (4 if tier == "quick" else 20)]:
+        positions = sorted(set([m.start() for m in re.finditer(r"\s+", sp)] + [m.end() for m in re.finditer(r"\s+", sp)] + [len(sp)]))
+        if tier == "quick":
+            positions = positions[::3]
+        for pos in positions:
+            for bad in (b"\xff", b"\xe9", b"\x80", b"\xc3", b"\xf0\x9f"):
+                prefix = sp[:pos]
+                data = prefix.encode("utf-8") + bad + sp[pos:].encode("utf-8")
+                nbytes += 1
+                r = hook.call({"op": "parse_bytes", "text_hex": data.hex()})
+                msg = (r.get("error") or {}).get("message", "")
+                toks, end = max_munch(doc, dlab, C.codepoints(prefix), eval_at_eof=False)
+                if end != "eof":
+                    continue
+                kinds = [t[0] for t in toks]
+                acc, viable = g.earley(kinds)
+                k = next((k for k in range(1, len(kinds) + 1) if not viable[k]), None)
+                if k is None:
+                    line = prefix.count("\n") + 1
+                    col = len(prefix) - (prefix.rfind("\n") + 1) + 1
+                    want = "f:%d:%d: invalid utf-8 character" % (line, col)
+                    if want not in msg:
+                        byte_bad.append((data, msg, "expected " + want))
+                else:
+                    t = toks[k - 1]
+                    if not msg.startswith("f:%d:%d:" % (t[3], t[4])):
+                        byte_bad.append((data, msg, "expected the syntax error at f:%d:%d" % (t[3], t[4])))
     hook.close()
 
-    rep.cov["evaluations"] = len(cases) + ntext
+    rep.cov["evaluations"] = len(cases) + ntext + nbytes
     rep.cov["distinct_nontrivial"] = dist["error_inside"] + dist["error_at_end"]
     rep.cov["rule"] = ("every single-token insertion (each of the 22 kinds), deletion, replacement and truncation at every position of valid "
                        "token streams, replayed through Parse; the reported index is compared with the Coq driver model and judged by an exact "
@@ -198,6 +230,10 @@ def check(tier):
     rep.obligation("oracle: reported token is the first offending one (exact Earley decision) on %d rejected sequences"
                    % (dist["error_inside"] + dist["error_at_end"]), not oracle_bad)
     rep.obligation("text level: file:line:column of %d stray/unterminated insertions" % ntext, not text_bad)
+    rep.obligation("byte level: file:line:column of %d malformed UTF-8 sequences (after a token, before one, inside layout)" % nbytes, not byte_bad)
+    for data, msg, why in byte_bad[:3]:
+        rep.failure("malformed-byte", {"malformed-byte"}, {"input_bytes_hex": data.hex(), "input_text_latin1": data.decode("latin-1")[:400],
+                                                           "message": msg[:300], "why": why})
     for i in badidx[:3]:
         s, code, k = cases[i]
         rep.failure("index", {"index"}, {"tokens": s, "observed": [code, k], "model": T.run([T.tidx[x] for x in s])[1]})
